@@ -23,6 +23,11 @@ func genHistoryWorld(g gen.G, depBoostPct int) m.WorldM {
 	if g.Chance(50) {
 		o.Edits = 0
 	}
+	if g.Chance(25) {
+		// a Terraform-like world in which references resolve (matching walks the shared,
+		// collected targets and origins)
+		return g.RefWorld(g.Int(1, 2), false)
+	}
 	return g.World(o)
 }
 
